@@ -495,7 +495,7 @@ class Ref:
             text = fmt.replace('\\n', '\n').format(*vals, **named)
         except Exception as ex:
             raise RefUndefined('str.format rejects this: %r' % (ex,))
-        self.events.append(('out', text))
+        self.events.append(('out', text, 'f'))
 
     def load_color(self, raw):
         h, s, b, k = raw
